@@ -12,6 +12,9 @@ Decided:
   MPT-C11e   in Memvid::search the engines can be reached without get_replay_frame_ids only through the edges that
              establish `as_of_ts is None` and `as_of_frame is None`; any other shortcut around the replay step lets a
              request that carries a cut-off skip it.
+  MPT-C11g   the Tantivy engine applies the candidate filter on every request: in the query planner (build_root_query,
+             reached from search_documents) every path from entry to an Ok exit passes the test of the frame-filter
+             parameter - the filter clause may not hang off the uri/scope chain or any other request-dependent branch.
 Not decided: what the engines return beyond honouring the filter (value-level)."""
 from . import lib
 from .facts import Place, op_place, rv_places as facts_rv_places
@@ -33,6 +36,7 @@ def run(ctx):
         _replay_reached(ctx, F, fn)
     _replay_ids(ctx, F)
     _engines(ctx, F)
+    _planner(ctx, F)
 
 
 def _replay_reached(ctx, F, fn):
@@ -486,6 +490,42 @@ def _option_filter_tests(F, fn, pi):
         elif c.name == 'is_some_and' and neg:
             out.append((c, False))
     return out
+
+
+def _planner(ctx, F):
+    ctx.rule('MPT-C11g', 'Tantivy query planner: the frame-filter parameter is tested on every path to an Ok exit (not only when uri/scope are absent)')
+    cands = [f for f in F.fns.values() if f.name == 'build_root_query' and not f.is_closure and any('[u64]' in f.local_ty(i) and 'Option' in f.local_ty(i) for i in range(1, f.r['argc'] + 1))]
+    if not cands:
+        ctx.lost('MPT-C11g', 'build_root_query(.., frame_filter: Option<&[u64]>) not found')
+        return
+    n = 0
+    for f in sorted(cands, key=lambda x: x.path):
+        pi = [i for i in range(1, f.r['argc'] + 1) if '[u64]' in f.local_ty(i) and 'Option' in f.local_ty(i)][0]
+        ctx.touch(f, len(f.blocks))
+        # a pure forwarder (free function -> method) is decided at its callee
+        fw = [c for c in f.calls() if c.local_callee in {x.path for x in cands} and c.local_callee != f.path]
+        if fw and all(pi in lib.slice_back(f, c.args, through_calls=False, at=(c.bb, None)).args for c in fw):
+            ctx.ok('MPT-C11g', f, 'forwards the frame filter to %s' % fw[0].key.split('::')[-1], line=fw[0].line)
+            continue
+        tests = set()
+        for vs in lib.variant_switches(f):
+            if vs['enum'] == 'Option' and vs['place'].l == pi:
+                tests.add(vs['bb'])
+        for bs in lib.bool_switches(f):
+            sl = lib.slice_back(f, [bs['local']], through_calls=True)
+            if pi in sl.args and any(c.name in ('is_some', 'is_none') for c in sl.calls):
+                tests.add(bs['bb'])
+        n += 1
+        ctx.evaluations += 1
+        exits = {ex['bb'] for ex in f.ok_exits()}
+        if not tests:
+            ctx.bad('MPT-C11g', f, 'the frame-filter parameter is never tested: the candidate filter of the search (time-travel view, date range) is not applied by the Tantivy engine', detail='planner-ignores-filter')
+        elif f.reachable(0, avoid=tests) & exits:
+            ctx.bad('MPT-C11g', f, 'an Ok exit is reachable without testing the frame-filter parameter: for some requests (e.g. with uri or scope set) the Tantivy engine ignores the candidate '
+                    'filter, so frames outside the time-travel view are returned', line=f.blocks[sorted(tests)[0]]['t'].get('l'), sink='frame_filter', detail='planner-filter-conditional')
+        else:
+            ctx.ok('MPT-C11g', f, 'every Ok path tests the frame filter')
+    ctx.floor('MPT-C11g', n, 1, 'query planners taking a frame filter')
 
 
 def _engines(ctx, F):
